@@ -399,7 +399,7 @@ XKINDS = ['none', 'random', 'trunc_start', 'start_on_side', 'end_on_side', 'no_c
 
 def run(sh):
     rng = gen.rng_for(sh.seed, PROP, sh.shard)
-    K = 7 if sh.tier == 'quick' else 250
+    K = 7 if sh.tier == 'quick' else 150
     for it in range(K):
         try:
             tab = make_table(rng)
